@@ -300,4 +300,25 @@ theorem notifyAll_faithful {pre post : Dict K V} {t : Triple K V} (h : Reconstru
       · subst hs; exact hv
       · exact ih.2 s hs
 
+/-! #### the factory as a program -/
+
+theorem dictEventFactoryProg_body (post : Dict K V) (t : Triple K V) :
+    dictEventFactoryProg factoryBody post t = dictEventFactory post t := by
+  simp only [dictEventFactoryProg, factoryBody, execF, dictEventFactory, FState.removedVal, FState.addedVal,
+    FState.setRemoved, FState.setAdded, Option.getD_some, Option.getD_none]
+  cases mergeAdded post t.changed t.added <;> rfl
+
+theorem notifyAllProg_body (post : Dict K V) (ns : List NotifierKind) (t : Triple K V) :
+    notifyAllProg factoryBody post ns t = notifyAll post ns t := by
+  induction ns generalizing t with
+  | nil => rfl
+  | cons n ns ih =>
+    cases n with
+    | raw => simp only [notifyAllProg, notifyAll, ih]
+    | observer =>
+      simp only [notifyAllProg, notifyAll, dictEventFactoryProg_body]
+      cases dictEventFactory post t with
+      | error e => rfl
+      | ok r => simp only [ih]
+
 end TraitsVerif.Model
